@@ -349,6 +349,11 @@ func init() { c20.Run = runC20 }
 func runC20(w *core.W) {
 	runStability(w, c20Stable)
 	runStorm(w)
+	for i, f := range hostMutFormulas {
+		if w.Mine(i) {
+			c20HostMut(w, &HostMutCase{Src: f})
+		}
+	}
 	nmax := w.Pick(4, 6)
 	idx := 0
 	for n := 1; n <= nmax; n++ {
